@@ -4,11 +4,47 @@ import (
 	"fmt"
 
 	"verif/corpus"
+
+	"github.com/go-text/typesetting/font"
+	ot "github.com/go-text/typesetting/font/opentype"
+	"github.com/go-text/typesetting/font/opentype/tables"
 )
 
 func main() {
-	fs := corpus.Files()
-	for i := 715; i < len(fs); i++ {
-		fmt.Println(i, fs[i].Name, len(fs[i].Data))
+	f := corpus.Get("ot/common/NotoSansCJKjp-VF.otf")
+	ld := corpus.Loaders(f)[0]
+	ft, err := font.NewFont(ld)
+	fmt.Println(err, len(ft.GSUB.Lookups), len(ft.GPOS.Lookups))
+	raw, _ := ld.RawTable(ot.MustNewTag("GPOS"))
+	lay, _, err := tables.ParseLayout(raw)
+	fmt.Println("layout", err, len(lay.LookupList.Lookups))
+	for i, lk := range lay.LookupList.Lookups {
+		sts, err := lk.AsGPOSLookups()
+		if err != nil {
+			fmt.Println(i, err)
+			continue
+		}
+		for j, st := range sts {
+			if ext, ok := st.(tables.ExtensionPos); ok {
+				st, err = ext.Resolve()
+				if err != nil {
+					fmt.Println(i, j, "resolve", err)
+					continue
+				}
+			}
+			switch s := st.(type) {
+			case tables.SinglePos:
+				err = s.Sanitize()
+			case tables.PairPos:
+				err = s.Sanitize()
+			case tables.MarkBasePos:
+				err = s.Sanitize()
+			case tables.MarkLigPos:
+				err = s.Sanitize()
+			}
+			if err != nil {
+				fmt.Printf("lookup %d subtable %d %T: %v\n", i, j, st, err)
+			}
+		}
 	}
 }
